@@ -229,7 +229,9 @@ def electrum_xprv(seed: bytes, seed_type: str, net: str) -> str:
 
 
 # ================================================================ shared strategies
-SPECIAL = ["\u00e9", "e\u0301", "\u00c5", "\u212b", "A\u030a", "\ufb01", "\u334d", "\u30ac", "\uff76\uff9e", "\u01c6", "\u1e9b\u0323", "\u00a8", "\u3000", " ", "  ", "\u0130", "\u00df", "\u03c2", "\U0001d518", "\u00bd", "\u00f1", "n\u0303", "\uac00", "\u1100\u1161", "\uff11", "\u216b", "\u00a0", "\t", "A", "z"]
+SPECIAL = ["\u00e9", "e\u0301", "\u00c5", "\u212b", "A\u030a", "\ufb01", "\u334d", "\u30ac", "\uff76\uff9e", "\u01c6", "\u1e9b\u0323", "\u00a8", "\u3000", " ", "  ", "\u0130", "\u00df", "\u03c2", "\U0001d518", "\u00bd", "\u00f1", "n\u0303", "\uac00", "\u1100\u1161", "\uff11", "\u216b", "\u00a0", "\t", "A", "z",
+           # compatibility characters that have no lower case of their own and decompose (NFKD) to UPPER-case letters: the order of lower() and NFKD shows on them
+           "\u2122", "\u210d", "\u2115", "\u2116", "\u3392", "\U0001d400", "\u2122", "\u210d"]
 KNOWN_PASS = ["TREZOR", "㍍ガバヴァぱばぐゞちぢ十人十色", "araña difícil solución término cárcel", "给我一些测试向量谷歌", "Did you ever hear the tragedy of Darth Plagueis the Wise?"]
 
 
